@@ -335,8 +335,8 @@ def plan(ctx):
             wide_ok = {1, 2, 3, 7, 19, 50} if N * D < 100000 else {1, 2, 3, 10}
         for n in counts:
             subs = subsets(rng, name, N, ctx.quick)
-            if name == "viirs" and not ctx.quick:
-                # 32 lines per scan make every VIIRS case expensive in Coq: full + sorted + one rotating kind per count
+            if name in ("viirs", "avhrr_gac", "olci", "slstr_nadir") and not ctx.quick:
+                # cost (32 lines per VIIRS scan; same templates as avhrr / each other): full + sorted + one rotating kind per count
                 rest = subs[2:]
                 subs = subs[:2] + [rest[n % len(rest)]]
             for desc, ps, dflt in subs:
